@@ -6,6 +6,12 @@ the relation `DirRel` with a reachable state of the link model `Penguin.Link`), 
 on at least one side; nothing is claimed any more, and it can never come back because ids are never
 drawn twice).  Definitions and the generic "a step that concerns flow `y` leaves every other flow's
 phase alone" lemma; the per-action proofs are in `Lemmas/PairStep.lean`.
+
+That is the stream part (`InvCore`).  Bind requests travel on the same connection; the second part
+of the invariant (`Binds`) says that the flow id of every bind request that is in transit or that an
+endpoint remembers belongs to no stream, now or later (`BoundAt`): it is in the phase dead, and the
+bind calls and `Bind` frames never meet a stream slot or a stream object (`Lemmas/PairBindEff.lean`,
+`Lemmas/PairBind.lean`).  `Inv` = `InvCore` + `Binds`; `Lemmas/PairMain.lean` proves it for every run.
 -/
 import Penguin.Model.Pair
 import Penguin.Model.Link
@@ -266,7 +272,9 @@ structure Running (e : EP) : Prop where
 def GhostFresh (e : EP) (g : Ghost) : Prop :=
   ∀ k, e.objs.length ≤ k → g.wlog k = [] ∧ g.rlog k = [] ∧ g.eof k = false
 
-structure Inv (p : PS) : Prop where
+/-- The part of the invariant that speaks about streams: connection-level facts, and a phase for
+    every flow id. -/
+structure InvCore (p : PS) : Prop where
   runA : Running p.a
   runB : Running p.b
   sfA : SlotFid p.a
@@ -277,6 +285,47 @@ structure Inv (p : PS) : Prop where
   ghB : GhostFresh p.b p.gb
   phase : ∀ x, Phase x p
   live : ∀ x ∈ p.linked, Linked x (ev x p.a p.ga) (ev x p.b p.gb) (fl x (pathAB p)) (fl x (pathBA p))
+
+/-! ### Bind requests: their flow ids stay apart from every stream -/
+
+/-- A `Bind` frame. -/
+def isBindMsg : Msg → Bool
+  | .frame (.bind ..) => true
+  | _ => false
+
+/-- A `Bind` frame is among the messages. -/
+def hasBind (l : List Msg) : Prop := ∃ m ∈ l, isBindMsg m = true
+
+/-- The flow ids of the bind requests of the peer an endpoint has received and not forgotten: the
+    one its receive loop is parked with, those in its bind queue, those handed to the application. -/
+def bindIds (e : EP) : List Nat :=
+  e.bindq.map (·.fid) ++ e.held.map (·.fid) ++ (match e.park with | some (.bind b) => [b.fid] | _ => [])
+
+/-- Flow id `x` is (or was) the id of a bind request: a `Bind` frame carrying it is in transit, or
+    one endpoint has received such a frame. -/
+def Marked (x : Nat) (p : PS) : Prop :=
+  hasBind (fl x (pathAB p)) ∨ hasBind (fl x (pathBA p)) ∨ x ∈ bindIds p.a ∨ x ∈ bindIds p.b
+
+/-- Flow id `x` belongs to no stream, now or later: it has left both scripts, no `Connect` carries it,
+    no stream object carries it on either endpoint, neither endpoint has a stream slot for it (at most
+    the requester's `BindRequested` slot), and at least one endpoint has no slot at all. -/
+structure BoundAt (x : Nat) (p : PS) : Prop where
+  ra : ¬ x ∈ p.a.rng
+  rb : ¬ x ∈ p.b.rng
+  nab : noConnect (fl x (pathAB p))
+  nba : noConnect (fl x (pathBA p))
+  oa : ∀ (k : Nat) (o : Obj), p.a.objs[k]? = some o → o.fid ≠ x
+  ob : ∀ (k : Nat) (o : Obj), p.b.objs[k]? = some o → o.fid ≠ x
+  sa : lookup p.a.flows x = none ∨ ∃ r, lookup p.a.flows x = some (.bindRequested r)
+  sb : lookup p.b.flows x = none ∨ ∃ r, lookup p.b.flows x = some (.bindRequested r)
+  gone : lookup p.a.flows x = none ∨ lookup p.b.flows x = none
+
+/-- Every flow id of a bind request belongs to no stream. -/
+def Binds (p : PS) : Prop := ∀ x, Marked x p → BoundAt x p
+
+/-- The invariant of the pair: the stream part, and the separation of bind requests from streams. -/
+structure Inv (p : PS) : Prop extends InvCore p where
+  binds : Binds p
 
 /-! ### Symmetry -/
 
@@ -307,7 +356,7 @@ theorem PhV.swap {x : Nat} {va vb : EV} {fab fba : List Msg} (h : PhV x va vb fa
 
 theorem Phase.swap {x : Nat} {p : PS} (h : Phase x p) : Phase x p.swap := PhV.swap h
 
-theorem Inv.swap {p : PS} (h : Inv p) : Inv p.swap := by
+theorem InvCore.swap {p : PS} (h : InvCore p) : InvCore p.swap := by
   refine ⟨h.runB, h.runA, h.sfB, h.sfA, ?_, ?_, h.ghB, h.ghA, fun x => (h.phase x).swap, fun x hx => (h.live x hx).swap⟩
   · have := h.nodup
     simp only [PS.swap]
@@ -320,6 +369,19 @@ theorem Inv.swap {p : PS} (h : Inv p) : Inv p.swap := by
     exact hk.symm
 
 theorem swap_swap (p : PS) : p.swap.swap = p := rfl
+
+theorem Marked.swap {x : Nat} {p : PS} (h : Marked x p.swap) : Marked x p := by
+  rcases h with h | h | h | h
+  · exact Or.inr (Or.inl h)
+  · exact Or.inl h
+  · exact Or.inr (Or.inr (Or.inr h))
+  · exact Or.inr (Or.inr (Or.inl h))
+
+theorem BoundAt.swap {x : Nat} {p : PS} (h : BoundAt x p) : BoundAt x p.swap :=
+  ⟨h.rb, h.ra, h.nba, h.nab, h.ob, h.oa, h.sb, h.sa, h.gone.symm⟩
+
+theorem Inv.swap {p : PS} (h : Inv p) : Inv p.swap :=
+  ⟨h.toInvCore.swap, fun x hx => (h.binds x hx.swap).swap⟩
 
 /-! ### The view of a flow the step does not concern -/
 
@@ -403,6 +465,6 @@ theorem Linked.congr {x : Nat} {p p' : PS} (ha : ev x p'.a p'.ga = ev x p.a p.ga
 def PhaseL (x : Nat) (p : PS) : Prop :=
   Phase x p ∧ (x ∈ p.linked → Linked x (ev x p.a p.ga) (ev x p.b p.gb) (fl x (pathAB p)) (fl x (pathBA p)))
 
-theorem Inv.phaseL {p : PS} (h : Inv p) (x : Nat) : PhaseL x p := ⟨h.phase x, h.live x⟩
+theorem InvCore.phaseL {p : PS} (h : InvCore p) (x : Nat) : PhaseL x p := ⟨h.phase x, h.live x⟩
 
 end Penguin.Pair
